@@ -444,3 +444,18 @@ func stdMethods(p *Program, pkgPath string, want map[string][]string) (map[*type
 	}
 	return out, nil
 }
+
+func init() {
+	inst := abortInstance{
+		id: "C17-j", min: 1, anchor: "pkg/api/utils.(*ObjectReceiver).Receive",
+		doc: "A transfer that failed is over: in pkg/api/client a failure of (*ObjectReceiver).Receive (a packfile cut short, an invalid object) ends the session state with an error on every path — it is never answered by asking again from inside the failure path. A remote that keeps sending a packfile cut inside an object would otherwise be re-requested without bound (recursion, response bodies never closed).",
+		scope: func(p *Program) []*ssa.Function { return p.FuncsInPkg("pkg/api/client") },
+		callees: func(p *Program) (map[*types.Func]bool, error) {
+			return p.MustFuncs("pkg/api/utils.(*ObjectReceiver).Receive")
+		},
+	}
+	register(&Rule{
+		ID: inst.id, Template: "T5-strong (a failure aborts)", Doc: inst.doc, Min: inst.min,
+		Run: func(p *Program, r *RuleResult) error { return runAbortInstance(p, r, inst) },
+	})
+}
